@@ -28,7 +28,11 @@ CONSTANTS Clients,     \* client / item identifiers
                        \*       (beginWrite / waitForEarlierWrites in engine.go); FALSE: the older protocol with the gap
           DropRace,    \* TRUE: the older Write/Close race (a Write that passed the closing check is enqueued after the final
                        \*       drain: acknowledged and dropped); FALSE: Write enqueues under the lock Close takes first (7e3580a)
-          SnapFails    \* TRUE: a snapshot may fail after Begin (temp file cannot be created): error-path cleanup
+          SnapFails,   \* TRUE: a snapshot may fail after Begin (temp file cannot be created): error-path cleanup
+          SnapCloseWaits, \* TRUE: shutdown waits for a SNAPSHOT in progress (Engine.Close takes adminMu, c40f673); a compaction
+                       \*       is not waited for (its ReplaceWith is refused by the closed journal, the old log stays)
+          Volatile     \* the clients whose item lives in the core that Engine.Close tears down (vector indexes: DB.Close
+                       \* unmaps the arenas and forgets the indexes); the KV store stays readable after Close
 
 VARIABLES
   cpc,      \* [Clients -> {"idle","sending","sent"}] : program counter of each client call
@@ -213,11 +217,21 @@ A_Reappend(kind) ==
 W_CloseQ(qq, rest) ==
   /\ ~wclosed
   /\ (CloseWaits => apc = "idle")
+  /\ (SnapCloseWaits => apc \notin {"snap.begun", "snap.captured", "snap.renamed", "snap.truncated"})
   /\ wclosed' = TRUE
   /\ ackpre' = acked
   /\ file' = file \o DrainedOf(qq).b \o DrainedOf(qq).s
   /\ q' = rest /\ buf' = <<>> /\ shadow' = <<>> /\ mode' = FALSE
   /\ UNCHANGED <<cpc, cver, memv, acked, wdead, snap, apc, img, pre, pend, nadmin, nflush, dev>>
+
+\* Engine.Close, after the journal is closed: wait for the calls that are between journal and apply (0257866), then
+\* DB.Close.  From here on a capture sees no vector index at all.
+E_CoreClose ==
+  /\ wdead
+  /\ \A c \in Clients : cpc[c] # "sent"
+  /\ \E c \in Volatile : memv[c] # 0
+  /\ memv' = [c \in Clients |-> IF c \in Volatile THEN 0 ELSE memv[c]]
+  /\ UNCHANGED <<cpc, cver, acked, q, buf, shadow, mode, wclosed, wdead, ackpre, file, snap, apc, img, pre, pend, nadmin, nflush, dev>>
 
 \* the run goroutine returns: closedCh is closed
 W_Dead ==
@@ -236,7 +250,7 @@ W_Close == W_CloseQ(q, <<>>)
 
 Next ==
   \/ \E c \in Clients : C_Start(c) \/ C_Enqueue(c) \/ C_Apply(c)
-  \/ W_Recv \/ W_Tick \/ W_Flush \/ W_Close \/ W_Dead
+  \/ W_Recv \/ W_Tick \/ W_Flush \/ W_Close \/ W_Dead \/ E_CoreClose
   \/ A_Begin("snap") \/ A_Capture("snap") \/ S_Rename \/ S_Truncate \/ A_End("snap") \/ A_Reappend("snap") \/ A_Fail
   \/ A_Begin("rw") \/ A_Capture("rw") \/ R_Replace \/ A_End("rw") \/ A_Reappend("rw")
 
